@@ -117,12 +117,24 @@ Example c06_script_example :
   = ([RJoin [1; 2] 0; RJoin [1; 2] 7; RSync 3 7 true], Joined).
 Proof. reflexivity. Qed.
 
-(* ==== Convergence clause on the quiet-period model (model/C06_Converge.v, proof/C06_converge.v) ============
-   The model: the group coordinator (after harness/simkit/groupcoord.py) composed with any number of members
-   whose reactions to reply codes are the translated dispatch chains above; quiet steps only (member actions,
-   expiry of orphan ids).  Tied to the real consumers by trace acceptance on every simulated run
-   (harness/c06_converge.py): the quiet suffix of each run is replayed inside Coq from a state read off the
-   real objects, which must satisfy [inv_b]. *)
+(* ==== Convergence clause on the quiet-period model (model/C06_Converge.v; proofs proof/C06_conv_*.v, C06_converge.v) =====
+   The model: the group coordinator (after harness/simkit/groupcoord.py, Kafka's classic protocol) composed with any
+   number of members; a member's reaction to a reply code is the translated dispatch chain of that handler (above) applied
+   to the code the modelled coordinator answers; quiet steps only: member actions (find the coordinator, JoinGroup,
+   SyncGroup, heartbeat, commit - each split into request and reply) and the expiry of orphan ids.  Tied to the real
+   consumers by trace acceptance on every simulated run (harness/c06_converge.py): the quiet suffix of each run is
+   replayed inside Coq from a state read off the real objects, which must satisfy [inv_b].
+   Timing / fairness assumptions (what the quiet steps do not contain): live members answer within the session,
+   rebalance and request timeouts; only orphan ids expire, each at most once; FindCoordinator answers the current
+   coordinator; subscriptions do not change (A1-A5 in the model file).
+
+   What these statements cover of [C06_converges_full] above: for EVERY state satisfying [inv_b] (not only the ones
+   reachable in the older Group.v model), for every number of members and EVERY schedule of quiet steps - convergence in
+   the generation the coordinator ends in, heartbeat tasks running, no further JoinGroup.  What remains outside: real time
+   (the assumptions above are hypotheses on the schedule, not derived from timeouts), the environment's actions themselves
+   (joins, leaves, crashes, failovers, injected errors, subscription changes: they are what leads to the state the
+   theorems start from - that this state satisfies [inv_b] is checked on every simulated run, not proved), and the
+   assignment-coverage clause (C14 / the simulation monitor). *)
 From Verif Require Import C06_Converge C06_converge.
 
 (* A converged state (coordinator Stable, every live member settled in its generation with the heartbeat task
@@ -134,9 +146,54 @@ Theorem c06_converged_closed : forall s l s',
 Proof. exact converged_closed. Qed.
 Print Assumptions c06_converged_closed.
 
-Theorem c06_converged_members : forall s, inv_b s = true -> converged_b s = true ->
-  forall m, In m (s_ms s) -> m_live m = true ->
-    m_gen m = c_gen (s_c s) /\ m_hb m = true /\ m_rejoin m = false /\ m_ph m = PIdle
-    /\ In (m_id m) (ids (c_ents (s_c s))) /\ c_st (s_c s) = CStable.
-Proof. exact converged_members. Qed.
-Print Assumptions c06_converged_members.
+(* The variant: in every state satisfying the invariant, EVERY enabled quiet step preserves the invariant, strictly
+   decreases [mu] unless it is a no-op heartbeat / commit exchange (which does not increase it); and unless the state is
+   converged a real step is enabled, at the latest after one no-op that consumes a silent reply still on the wire. *)
+Theorem c06_quiet_progress : forall s, inv_b s = true ->
+  (forall l s', step s l = Some s' ->
+     inv_b s' = true /\ (noop_b s l = false -> mu s' < mu s) /\ (noop_b s l = true -> mu s' <= mu s))
+  /\ (converged_b s = false ->
+      exists l s', step s l = Some s' /\
+        (noop_b s l = false \/ (exists l2 s2, step s' l2 = Some s2 /\ noop_b s' l2 = false))).
+Proof. exact quiet_progress. Qed.
+Print Assumptions c06_quiet_progress.
+
+(* Hence: every quiet execution from such a state contains at most [mu s] steps that are not no-ops, and every
+   execution that contains that many ends converged - every live member Stable in the coordinator's generation with
+   its heartbeat task running and no rejoin flag.  (No bound on the number of members; no-ops are not counted, so the
+   fairness needed is only that real steps keep being taken while enabled - which [c06_quiet_progress] guarantees
+   they are.) *)
+Theorem c06_quiet_converges : forall s ls s', inv_b s = true -> run s ls = Some s' ->
+  inv_b s' = true /\ count_real s ls <= mu s /\
+  (mu s <= count_real s ls ->
+     converged_b s' = true /\
+     forall m, In m (s_ms s') -> m_live m = true ->
+       m_gen m = c_gen (s_c s') /\ m_hb m = true /\ m_rejoin m = false /\ m_ph m = PIdle
+       /\ In (m_id m) (ids (c_ents (s_c s'))) /\ c_st (s_c s') = CStable).
+Proof. exact quiet_converges. Qed.
+Print Assumptions c06_quiet_converges.
+
+(* ... and such an execution exists from every state satisfying the invariant. *)
+Theorem c06_quiet_schedule_exists : forall s, inv_b s = true ->
+  exists ls s', run s ls = Some s' /\ converged_b s' = true /\ inv_b s' = true.
+Proof. intros s Hi. exact (quiet_schedule_exists (mu s) s Hi (le_n _)). Qed.
+Print Assumptions c06_quiet_schedule_exists.
+
+(* non-vacuity: three members, one with a stale generation, one orphan id in the table *)
+Definition c06_example_state : state :=
+  mkS (mkC 5 CStable [mkE 1 false false; mkE 2 false false; mkE 3 false false; mkE 7 false false] [] 1)
+      [mkM 0 true 1 5 PIdle false CkOk true 0 None None None;
+       mkM 1 true 2 4 PIdle false CkOk true 0 None None None;
+       mkM 2 true 3 5 PIdle false CkOk true 0 None None None].
+Definition c06_example_schedule : list label :=
+  [LHbSend 1; LHbRecv 1; LSendJoin 1 true 8; LRecv 1; LSendJoin 1 true 9; LHbSend 0; LHbRecv 0; LSendJoin 0 true 9;
+   LHbSend 2; LHbRecv 2; LSendJoin 2 true 9; LExpire 2 false; LExpire 7 false; LRecv 0; LSendSync 0; LRecv 0; LRecv 1;
+   LSendSync 1; LRecv 1; LRecv 2; LSendSync 2; LRecv 2].
+Example c06_example_invariant : inv_b c06_example_state = true /\ converged_b c06_example_state = false.
+Proof. split; vm_compute; reflexivity. Qed.
+Example c06_example_converges :
+  match run c06_example_state c06_example_schedule with
+  | Some s' => converged_b s' && inv_b s' && (c_gen (s_c s') =? 6) && (count_real c06_example_state c06_example_schedule =? 22)
+  | None => false
+  end = true.
+Proof. vm_compute. reflexivity. Qed.
